@@ -82,6 +82,8 @@ def matches(o, f):
         return o['uid'] == v
     if n == 'Sensitive':
         return bool(o['sensitive']) == bool(v)
+    if n[:2] in ('x-', 'y-'):
+        return False
     raise ValueError(n)
 
 
@@ -116,7 +118,20 @@ def gen_filters(r, ctx_objs_guess, ver):
         names.append('Sensitive')
     if ver >= (2, 0):
         names.remove('Operation Policy Name')
-    for n in r.sample(names, k):
+    if ver < (2, 0) and r.random() < 0.12:
+        # a custom (vendor) attribute: no stored object can have one, so a
+        # filter on it matches nothing - it must not be ignored
+        names.append('x-purpose')
+        k = max(k, 1)
+        picked = r.sample(names[:-1], k - 1) + ['x-purpose']
+        r.shuffle(picked)
+    else:
+        picked = r.sample(names, k)
+    for n in picked:
+        if n == 'x-purpose':
+            fl.append(gen.A(r.choice(['x-purpose', 'y-owner', 'x-1']),
+                            'backup', k='text'))
+            continue
         if n == 'Object Type':
             v = r.choice([1, 2, 2, 3, 4, 5, 7, 8])
         elif n == 'State':
